@@ -170,6 +170,9 @@ func run(c *Case) (*outcome, *vkit.Violation, error) {
 					b.SrcEpoch, b.TgtEpoch = 1, 2 // a second, different vote for target 2: refused
 				}
 				first := e%4 == 0
+				if c.StaleOther {
+					first = e%4 < 2 // the refused companion comes last half of the time
+				}
 				ts := []vkit.Target{target(p), vkit.TargetOf(other, false)}
 				as := []*vkit.Att{&a, b}
 				if !first {
